@@ -10,8 +10,10 @@ Tie        : (1) resp.ParseStream, built from the working tree, fed through an i
              itself, commands after the error leave no trace in the keyspace, the other
              connections and the process stay alive."""
 import collections
+import hashlib
 import json
 import random
+import re
 
 from . import gen_resp as G
 from . import lib, resplib
@@ -164,14 +166,20 @@ def plan_case(cid, stream, sizes, pause, mev, registered, marker_key=None):
     if marker_key is not None:
         probe = G.encode_cmd([b"LRANGE", marker_key, b"0", b"-1"])
         expect_list = []
+        # a nil bulk ($-1) as an element of a command array is not an argument byte string: Go keeps
+        # it as a nil slice (stored and read back as nil), the model as the empty string; such a
+        # stream is not a well-formed command, the keyspace prediction is not attempted for it
+        if re.search(r"(\[|,)n(,|\])", events):
+            expect_list = None
         for c in executed:
+            if expect_list is None:
+                break
             name = c[0].lower() if c else b""
             if name == b"rpush":
                 if len(c) >= 3 and c[1] == marker_key:
                     expect_list += c[2:]
             elif name in registered:
                 expect_list = None    # some other command reached the keyspace: no prediction
-                break
     meta = dict(n=len(executed), end=end, events=events, expect_list=expect_list, marker_key=marker_key)
     return resplib.TcpCase(cid, stream, sizes, mode, pause, probe, meta)
 
@@ -223,12 +231,15 @@ def run_and_judge(server, d, cases, tag, selfclose_ms=20000):
 def tcp_part(ctx, d, inproc_stats):
     r = random.Random(ctx.seed * 7777 + 5)
     registered = registered_commands(d)
-    nv, nm, nx, ns = (500, 700, 700, 700) if ctx.tier == "quick" else (4000, 6000, 6000, 5000)
+    nv, nm, nx, ns = (700, 1000, 1000, 900) if ctx.tier == "quick" else (4000, 6000, 6000, 5000)
     raw = []     # (id, stream, marker_key)
     for i in range(nv):
         raw.append(("tv%d" % i, G.encode_pipeline(G.tcp_pipeline(r, b"tv%d:" % i)), None))
     for i in range(nm):
-        key, s = G.marker_stream(r, b"tm%d:" % i)
+        # the marker key must not be reachable from another case's key by a one-byte mutation of a
+        # command (a flipped digit in "tm5768:" once wrote into the list of case tm5769)
+        tag = hashlib.sha1(b"%d-%d" % (ctx.seed, i)).hexdigest()[:16].encode()
+        key, s = G.marker_stream(r, b"tm" + tag + b":")
         raw.append(("tm%d" % i, s, key))
     for i in range(nx):
         s = G.encode_pipeline(G.tcp_pipeline(r, b"tx%d:" % i))
